@@ -14,7 +14,7 @@ import os, re, sys, json, random, subprocess, shutil, hashlib, concurrent.future
 REPO = "/repo"
 OUT = "/tmp/ms-out"
 MAP = {
-    "matrix/solve.rs": ["C01", "C02"], "matrix/operations.rs": ["C03", "C20"], "matrix/arithmetic.rs": ["C03", "C20"],
+    "matrix/solve.rs": ["C01", "C02", "C20"], "matrix/operations.rs": ["C03", "C20"], "matrix/arithmetic.rs": ["C03", "C20"],
     "matrix/functions.rs": ["C03", "C18"], "matrix/mod.rs": ["C03"], "banded.rs": ["C04", "C20"], "tridiagonal.rs": ["C05", "C20"],
     "sparse.rs": ["C06", "C07", "C08", "C09", "C20"], "polynomial/mod.rs": ["C10", "C11"], "polynomial/arithmetic.rs": ["C11", "C12", "C20"],
     "complex/mod.rs": ["C13"], "complex/elementary.rs": ["C14", "C10"], "complex/trigonometric.rs": ["C14"], "complex/hyperbolic.rs": ["C14"],
